@@ -61,6 +61,11 @@ var (
 )
 
 func randomEmail(buf []byte) error {
+	// Anything shorter than "a@b.cc" cannot be e-mail shaped (and lengths below the TLD length used to
+	// slice with a negative bound): generate a plain random string of the same length instead.
+	if len(buf) < len("a@b.cc") {
+		return randomString(buf)
+	}
 	// If the buffer is really short, choose only among 2-letter country TLDs so that we have some space for other parts.
 	tlds := allTLDs
 	if len(buf) < len("a@b.cdef") {
